@@ -187,7 +187,81 @@ class C04(Case):
         return obs
 
 
+@__import__("entity_query_language").symbol
+@__import__("dataclasses").dataclass(eq=False)
+class RItem:
+    a: object = 0
+
+
+@__import__("entity_query_language").symbol
+@__import__("dataclasses").dataclass(eq=False)
+class RReg:
+    v: object = 0
+
+
+class C04Registry(Case):
+    """Scenario: a rule-mode variable constrained by keyword and ranging over the registry (w = RReg(v=x.a), no From) joined
+    with x; the query is evaluated, abandoned after k results (k symbolic), and evaluated again."""
+    prop = "C04"
+
+    def run(self, mk):
+        from entity_query_language import rule_mode
+        sp = self.spec
+        items = [RItem(a=mk.int("x_%d.a" % i)) for i in range(3)]
+        regs = [RReg(v=mk.int("w_%d.v" % j)) for j in range(2)]
+        data = dict(items=items, regs=regs, evals=[])
+        events = []
+        try:
+            with rule_mode():
+                x = let(RItem, domain=items)
+                w = RReg(v=x.a)
+                q = an(set_of([x, w]))
+
+            def rows():
+                out = []
+                for r in q.evaluate():
+                    out.append((next((i for i, o in enumerate(items) if o is r[x]), -1),
+                                next((j for j, o in enumerate(regs) if o is r[w]), -1)))
+                return out
+            for t, op in enumerate(sp["history"] + ["FULL"]):
+                if op == "FULL":
+                    r = rows()
+                    data["evals"].append(r)
+                    events.append(["FULL", [list(p) for p in r]])
+                else:
+                    k = mk.intrange("k%d" % t, 0, 3)
+                    it = q.evaluate()
+                    taken = 0
+                    while not (k == taken):
+                        try:
+                            next(it)
+                        except StopIteration:
+                            break
+                        taken += 1
+                    if op == "TAKE":
+                        it.close()
+                    it = None
+                    events.append([op, taken])
+        except Exception as e:
+            events.append(["exc", type(e).__name__, str(e)[:200]])
+        return data, events
+
+    def obligations(self, alg, data, events):
+        obs = []
+        for ev in events:
+            if ev[0] == "exc":
+                obs.append(("no_exception:%s:%s" % (ev[1], ev[2][:80]), alg.const(False)))
+        for n, rows in enumerate(data["evals"]):
+            obs.append(("eval%d:cells" % n, alg.const(all(i >= 0 and j >= 0 for i, j in rows))))
+            for i, xo in enumerate(data["items"]):
+                for j, wo in enumerate(data["regs"]):
+                    obs.append(("eval%d:pair_x%d_w%d" % (n, i, j), alg.iff(alg.const((i, j) in rows), alg.cmp("eq", wo.v, xo.a))))
+        return obs or [("reached", alg.const(True))]
+
+
 def make_case(spec):
+    if spec.get("scenario") == "registry_keyword_variable":
+        return C04Registry(spec)
     return C04(spec)
 
 
@@ -218,6 +292,8 @@ def shapes(tier, seed):
             out.append(dict(template=tn, history=[["TAKE", 0]], final=0, domain=dom))
             out.append(dict(template=tn, history=[["FULL", 1], ["FULL", 0]], final=0, domain=dom))
             out.append(dict(template=tn, history=[["FAULT", 0]], final=0, domain=dom))
+    for h in ([], ["FULL"], ["TAKE"], ["DROP"], ["TAKE", "FULL"], ["FULL", "TAKE"]):
+        out.append(dict(scenario="registry_keyword_variable", history=h))
     # caching disabled
     for tn in tnames:
         for op in (["TAKE", 0], ["FAULT", 0], ["DROP", 0]):
